@@ -30,7 +30,13 @@ LEVEL_TEXT = (
     "expansion of the weighted squared-l2 loss (gradient 2aA^HW(Ax-y), Hessian 2aA^HWA, Hermitian, PSD); for EVERY "
     "expression built from the smooth functionals by scaling, sums, separable blocks and Loss(y,A,f,scale), to any "
     "depth, model grad = true derivative (HasDerivAt) on the smoothness domain, incl. Huber at its threshold; "
-    "slot plumbing of Function/cvjp; copy+rebind machine of Loss.__mul__/__truediv__/set_scale for all histories."
+    "slot plumbing of Function/cvjp; copy+rebind machine of Loss.__mul__/__truediv__/set_scale for all histories. "
+    "Round 2: the induction is proved along every differentiable curve (C07_curve), so it passes through NONLINEAR "
+    "operators inside losses (Fn.lossOp, C07_chain_nonlinear under JAX's jvp/vjp contracts; for the operator family "
+    "Ax+B conj x+(Cx)^2+c jvp IS the derivative and vjp its adjoint without hypotheses, C07_operator_jacobian); "
+    "PoissonLoss, SquaredL2AbsLoss, ProximalAverage and the TV norms (l1 / guarded l2,1 norm after the object's own "
+    "difference matrix, structural zeros of the zero-padded forms included) are inside; set distances for any "
+    "projection with the contracts; linear_adjoint of real-linear (C->R) functions."
 )
 LEVEL_NOTE = (
     "Trusted: Lean kernel + Mathlib (propext, Classical.choice, Quot.sound); JAX's AD (jax.grad/jvp/vjp/"
@@ -38,8 +44,9 @@ LEVEL_NOTE = (
     "transcription Fn.jaxGrad is proved to satisfy the contract and is compared with the real jax.grad every run; real-"
     "number idealisation of IEEE arithmetic; operators inside losses are dense linear maps (MatrixOperator/Diagonal/"
     "Identity); Python object semantics of copy/bound methods are modelled (Heap machine), tied by the correspondence, "
-    "not derived from the source. Nonlinear operators inside losses, TV/nuclear/set-distance/Poisson functionals are "
-    "covered only by the finite-difference oracle (thorough tier)."
+    "not derived from the source. NuclearNorm, Convolve inside a loss and set distances for projections other than "
+    "box/subspace are covered only by the finite-difference oracle (thorough tier); values of grad AT kinks (JAX's "
+    "conventions for abs/norm at 0) are outside the property and not compared."
 )
 PROP_MODULES = ["Scico.Props.C07"]
 EXTRA_TARGETS = ["Drv.Autograd"]
@@ -48,6 +55,9 @@ FILES = [
     "scico/_autograd.py",
     "scico/functional/_functional.py",
     "scico/functional/_norm.py",
+    "scico/functional/_tvnorm.py",
+    "scico/functional/_dist.py",
+    "scico/functional/_proxavg.py",
     "scico/loss.py",
     "scico/operator/_operator.py",
     "scico/linop/_util.py",
@@ -63,7 +73,11 @@ RULE = (
     "bare leaf or the point is on a branch boundary; distinct by (expression kinds, dtype, size). "
     "jac: operators F(x)=Ax+B conj(x)+(Cx)^2+c and product Functions, all basis directions (dense Jacobian), both "
     "conjugate flags, include_eval on/off. hess: dense Hessian on basis vectors. heap: random histories of "
-    "new/mul/rmul/div/set_scale on 5 loss classes. args: all (index, arity<=4). linadj: three dtype branches."
+    "new/mul/rmul/div/set_scale on 5 loss classes. args: all (index, arity<=4). linadj: four dtype cases; linadj2: all 8 "
+    "(primal kinds x output kind) configurations. Also in fn: SquaredL2AbsLoss, PoissonLoss (positive operator and point), "
+    "Loss/SquaredL2Loss with a nonlinear operator Ax+B conj x+(Cx)^2+c, ProximalAverage. tv: Anisotropic/IsotropicTVNorm "
+    "(circular / zero-padded, 1-D/2-D, axes) via the dense matrix of the object's own f.G. l21: 2-D/3-D, int/tuple/None "
+    "axes, identically-zero groups. setdist: box / subspace projections at points outside the set."
 )
 ASSUMPTIONS = [
     "jax.grad of a real-valued function returns jg with d/dt f(x+td) = Re sum jg_i d_i (contract; its transcription Fn.jaxGrad is proved to satisfy it and is compared with jax.grad each run)",
@@ -271,6 +285,8 @@ def stream_fn(ctx, model):
         t = G.gen_tree(rng, n, cplx, int(rng.integers(0, depth_max + 1)))
         if not cplx and rng.random() < 0.12:
             t = G.gen_poisson_tree(rng, n)
+        elif rng.random() < 0.08:
+            t = G.gen_proxavg(rng, n)
         x = _gen_point(rng, t, n, cplx)
         done += 1
         if x is None:
@@ -587,6 +603,63 @@ def stream_tv(ctx, model):
         if c is not None:
             case = dict(case, scale=c)
         _cmp_vec(ctx, "tv.grad", case, g, mg, tv_oracle)
+
+
+def stream_setdist(ctx, model):
+    """SetDistance / SquaredSetDistance for a box (`clip`) and for a subspace (`P z = M z`) projection at
+    points outside the set.  Near such a point a box projection is affine, `P z = D z + b` (D = 0/1 diagonal of the
+    coordinates that are not clipped), so the functional is `‖(I-D) z - b‖` resp. `0.5‖·‖²` there: the model
+    expression `Loss(b, I-D, L2Norm | 0.5 SquaredL2Norm)` (theorems C07_scaled_sum / C07_set_distance)."""
+    import scico.numpy as snp
+    from scico import functional
+
+    rng = ctx.rng
+    for _ in range(ctx.n(12, 100)):
+        n = int(rng.integers(1, 5))
+        squared = bool(rng.random() < 0.5)
+        kind = "box" if rng.random() < 0.6 else "subspace"
+        x = G.dy(rng, (n,), False, nz=True) + 2.0**-6
+        if kind == "box":
+            lo, hi = -0.5, 0.75
+            if not np.any((x < lo) | (x > hi)):
+                x[int(rng.integers(n))] = 1.5
+            if np.any(np.abs(x - lo) < 1e-6) or np.any(np.abs(x - hi) < 1e-6):
+                continue
+            D = np.diag(((x > lo) & (x < hi)).astype(np.float64))
+            b = np.where(x <= lo, lo, np.where(x >= hi, hi, 0.0))
+            proj = lambda v, lo=lo, hi=hi: snp.clip(v, lo, hi)  # noqa: E731
+        else:
+            v = G.dy(rng, (n,), False, nz=True)
+            D = np.outer(v, v) / float(v @ v)  # orthogonal projector onto span(v)
+            b = np.zeros(n)
+            Dj = snp.array(D)
+            proj = lambda z, Dj=Dj: Dj @ z  # noqa: E731
+            if np.linalg.norm(x - D @ x) < 1e-3:
+                continue
+        A = np.eye(n) - D
+        inner = {"k": "sqL2"} if squared else {"k": "l2"}
+        t = {"k": "loss", "s": 0.5 if squared else 1.0, "op": {"kind": "matrix", "m": n, "M": G.enc(A)}, "y": G.enc(b), "f": inner}
+        f = (functional.SquaredSetDistance if squared else functional.SetDistance)(proj)
+        X = snp.array(x)
+        got = model.call("fn", n=n, x=G.cv(x), f=G.to_model(t, n))
+        ctx.case({"tag": "setdist", "kind": kind, "squared": squared, "n": n}, ("setdist", kind, squared, n))
+        ctx.count(f"setdist:{kind}:{'squared' if squared else 'distance'}")
+
+        def orc(c, f=f, X=X, n=n):
+            gg = np.asarray(f.grad(X)).ravel()
+            for i in range(n):
+                e = np.zeros(n)
+                e[i] = 1.0
+                fd = fd_directional(f, X, snp.array(e), 2.0**-12)
+                if not abs(fd - float(gg[i])) <= 1e-5 * (1 + abs(fd)):
+                    return {"x": c["x"], "direction": i, "grad_component": float(gg[i]), "finite_difference": fd}
+            return None
+
+        case = {"kind": kind, "squared": squared, "x": G.enc(x)}
+        if not common.close(float(f(X)), common.b2f(got["eval"]), TOLK):
+            ctx.disagree("setdist.eval", case, float(f(X)), common.b2f(got["eval"]), oracle=orc)
+            continue
+        _cmp_vec(ctx, "setdist.grad", case, f.grad(X), G.from_cv(got["grad"]), orc)
 
 
 def stream_div_reject(ctx, model):
@@ -939,6 +1012,12 @@ def stream_function(ctx, model):
             rhs = float(np.real(np.sum(np.conj(gw) * np.asarray(V)))) if gw.shape == np.asarray(V).shape else float("nan")
             if not abs(lhs - rhs) <= 1e-5 * (1 + abs(lhs)):
                 return {"index": idx, "Re<w,J v>": lhs, "Re<vjp(w),v>": rhs}
+            # conjugate=False: the plain transpose (the product function is holomorphic): sum (G w)_i v_i = sum w_i (J v)_i
+            gt = np.asarray(Fn.vjp(idx, *X, conjugate=False)[1](W))
+            lt = complex(np.sum(np.asarray(W) * fd))
+            rt = complex(np.sum(gt * np.asarray(V))) if gt.shape == np.asarray(V).shape else complex("nan")
+            if not abs(lt - rt) <= 1e-5 * (1 + abs(lt)):
+                return {"index": idx, "conjugate": False, "sum w_i (J v)_i": [lt.real, lt.imag], "sum vjp(w)_i v_i": [rt.real, rt.imag]}
             return None
 
         Fu, Jv = Fn.jvp(idx, V, *X)
@@ -1295,6 +1374,24 @@ def api_oracle(case):
         "value_and_grad(has_aux)": lambda: scico.value_and_grad(fun_aux, argnums=(0, 1), has_aux=True)(pa, pb)[1],
         "value_and_grad": lambda: scico.value_and_grad(fun, argnums=(0, 1))(pa, pb)[1],
     }
+    if "row" in case:
+        import jax.numpy as jnp
+
+        n1_, n2_ = case["sizes"]
+        m_ = case["tree"]["op"]["m"]
+        Mm = G.dec(case["tree"]["op"]["M"], (m_, n1_ + n2_), cplx)
+        yv_ = G.dec(case["tree"]["y"], (m_,), cplx)
+        A_, B_, y_ = jnp.asarray(Mm[:, :n1_], dtype=dt), jnp.asarray(Mm[:, n1_:], dtype=dt), jnp.asarray(yv_, dtype=dt)
+        kk = case["row"]
+
+        def frow(p, q):
+            return (jnp.abs(A_ @ p + B_ @ q - y_) ** 2)[kk]
+
+        def fv(p, q):
+            return jnp.abs(A_ @ p + B_ @ q - y_) ** 2
+
+        fun = frow
+        variants = {"jacrev(argnums=(0,1)) row": lambda: tuple(np.asarray(z)[kk] for z in scico.jacrev(fv, argnums=(0, 1))(pa, pb))}
     rr = np.random.Generator(np.random.PCG64(7))
     for name, call in variants.items():
         g0, g1 = (np.asarray(z) for z in call())
@@ -1351,24 +1448,26 @@ def linadj_oracle(case):
 
     common.setup_scico()
     branch = case["branch"]
-    cp, co = (branch == 0), (branch in (0, 1))
+    cp, co = (branch in (0, 3)), (branch in (0, 1))
+    realout = branch == 3
     M = G.dec(case["M"], None, True)
     yv = G.dec(case["y"], None, True)
     m = yv.size
     n = M.size // m
     M = M.reshape(m, n)
-    Mj = jnp.asarray(M if co else M.real, dtype=np.complex128 if co else np.float64)
+    Mj = jnp.asarray(M if (co or realout) else M.real, dtype=np.complex128 if (co or realout) else np.float64)
     rr = np.random.Generator(np.random.PCG64(5))
     x = G.dy(rr, (n,), cp)
     xin = snp.array(np.asarray(x, dtype=np.complex128 if cp else np.float64))
-    adj = scico.linear_adjoint(lambda z: Mj @ z, xin)
+    fun = (lambda z: jnp.real(Mj @ z)) if realout else (lambda z: Mj @ z)
+    adj = scico.linear_adjoint(fun, xin)
     ay = np.asarray(adj(snp.array(np.asarray(yv if co else yv.real, dtype=np.complex128 if co else np.float64)))[0])
     lhs = np.sum(np.conj(ay) * np.asarray(xin))
-    rhs = np.sum(np.conj(yv if co else yv.real) * np.asarray(Mj @ xin))
-    if not cp:
-        lhs, rhs = np.real(lhs), np.real(rhs)  # real argument space: real inner product
+    rhs = np.sum(np.conj(yv if co else yv.real) * np.asarray(fun(xin)))
+    if not cp or realout:
+        lhs, rhs = np.real(lhs), np.real(rhs)  # real argument space / real-linear function: real inner product
     if abs(lhs - rhs) > 1e-9 * (1 + abs(rhs)):
-        return {"branch": ["C->C", "R->C", "R->R"][branch], "x": G.enc(x), "y": case["y"], "<adj y,x>": complex(lhs).real, "<y,f x>": complex(rhs).real}
+        return {"branch": ["C->C", "R->C", "R->R", "C->R"][branch], "x": G.enc(x), "y": case["y"], "<adj y,x>": complex(lhs).real, "<y,f x>": complex(rhs).real}
     return None
 
 
@@ -1409,6 +1508,7 @@ def stream_autograd_api(ctx, model):
         gaux, aux = scico.grad(fun_aux, argnums=(0, 1), has_aux=True)(pa, pb)
         (vv, aux2), gva = scico.value_and_grad(fun_aux, argnums=(0, 1), has_aux=True)(pa, pb)
         vv2, gv0 = scico.value_and_grad(fun, argnums=0)(pa, pb)
+        vv3, gv01 = scico.value_and_grad(fun, argnums=(0, 1))(pa, pb)
         ok = isinstance(g01, tuple) and len(g01) == 2
         for name, impl, want in (
             ("api.grad.argnums01", np.concatenate([np.asarray(z).ravel() for z in g01]) if ok else np.zeros(0), mg),
@@ -1417,14 +1517,27 @@ def stream_autograd_api(ctx, model):
             ("api.grad.has_aux", np.concatenate([np.asarray(z).ravel() for z in gaux]), mg),
             ("api.value_and_grad.has_aux", np.concatenate([np.asarray(z).ravel() for z in gva]), mg),
             ("api.value_and_grad.argnums0", np.asarray(gv0).ravel(), mg[:n1]),
+            ("api.value_and_grad.argnums01", np.concatenate([np.asarray(z).ravel() for z in gv01]) if isinstance(gv01, tuple) else np.zeros(0), mg),
         ):
             _cmp_vec(ctx, name, case, impl, np.asarray(want), api_oracle)
-        if not (common.close(float(vv), common.b2f(got["eval"]), TOLK) and common.close(float(vv2), common.b2f(got["eval"]), TOLK)):
-            ctx.disagree("api.value_and_grad.value", case, [float(vv), float(vv2)], common.b2f(got["eval"]))
+        if not all(common.close(float(z), common.b2f(got["eval"]), TOLK) for z in (vv, vv2, vv3)):
+            ctx.disagree("api.value_and_grad.value", case, [float(vv), float(vv2), float(vv3)], common.b2f(got["eval"]))
         # jacrev of a real-vector-valued function: row k = gradient of the k-th output
         def fvec(p):
             return jnp.abs(Aj @ p - yj) ** 2
 
+        def fvec2(p, q):
+            return jnp.abs(Aj @ p + Bj @ q - yj) ** 2
+
+        Jr2 = scico.jacrev(fvec2, argnums=(0, 1))(pa, pb)
+        for kk in range(m):
+            wk = [0.0] * m
+            wk[kk] = 1.0
+            tk2 = {"k": "sqL2Loss", "s": 1.0, "op": {"kind": "matrix", "m": m, "M": G.enc(M)}, "y": G.enc(y), "w": wk}
+            gk2 = G.from_cv(model.call("fn", n=n, x=G.cv(x), f=G.to_model(tk2, n))["grad"])
+            row = np.concatenate([np.asarray(Jr2[0])[kk].ravel(), np.asarray(Jr2[1])[kk].ravel()]) if isinstance(Jr2, tuple) and len(Jr2) == 2 else np.zeros(0)
+            ctx.count("api:jacrev-rows-argnums01")
+            _cmp_vec(ctx, "api.jacrev.argnums01.row", {"tag": "api", "tree": t, "n": n, "cplx": cplx, "x": G.enc(x), "sizes": [n1, n2], "row": kk}, row, gk2, api_oracle)
         Jr = np.asarray(scico.jacrev(fvec)(pa))
         for kk in range(m):
             wk = [0.0] * m
@@ -1433,23 +1546,97 @@ def stream_autograd_api(ctx, model):
             gk = G.from_cv(model.call("fn", n=n1, x=G.cv(a), f=G.to_model(tk, n1))["grad"])
             ctx.count("api:jacrev-rows")
             _cmp_vec(ctx, "api.jacrev.row", {"tag": "jacrev", "tree": tk, "n": n1, "cplx": cplx, "x": G.enc(a), "row": kk}, Jr[kk], gk, jacrev_oracle)
-    # linear_adjoint: three dtype branches
-    for _ in range(ctx.n(15, 100)):
+    # linear_adjoint: the dtype branches (C->C, R->C, R->R) and a complex -> real function x -> Re(M x)
+    for _ in range(ctx.n(20, 120)):
         n, m = int(rng.integers(1, 4)), int(rng.integers(1, 4))
-        branch = int(rng.integers(3))
-        cp, co = (branch == 0), (branch in (0, 1))
-        M = G.dy(rng, (m, n), co)
-        Mj = jnp.asarray(M, dtype=np.complex128 if co else np.float64)
+        branch = int(rng.integers(4))
+        cp, co = (branch in (0, 3)), (branch in (0, 1))
+        realout = branch == 3
+        M = G.dy(rng, (m, n), co or realout)
+        Mj = jnp.asarray(M, dtype=np.complex128 if (co or realout) else np.float64)
         xin = snp.array(np.asarray(G.dy(rng, (n,), cp), dtype=np.complex128 if cp else np.float64))
         yv = G.dy(rng, (m,), co)
-        adj = scico.linear_adjoint(lambda z: Mj @ z, xin)
+        fun = (lambda z: jnp.real(Mj @ z)) if realout else (lambda z: Mj @ z)
+        adj = scico.linear_adjoint(fun, xin)
         impl = np.asarray(adj(snp.array(np.asarray(yv, dtype=np.complex128 if co else np.float64)))[0])
-        got = G.from_cv(model.call("linadj", n=n, m=m, M=G.cmat(M), y=G.cv(yv), cprimal=cp, cout=co))
+        got = G.from_cv(model.call("linadj", n=n, m=m, M=G.cmat(M), y=G.cv(yv), cprimal=cp, cout=co, real_out=realout))
         if branch == 1:
             got = got.real  # real primal: JAX returns the real part of the cotangent
-        ctx.case({"tag": "linadj", "branch": ["C->C", "R->C", "R->R"][branch], "n": n, "m": m}, ("linadj", branch, n, m))
-        ctx.count("linadj:" + ["C->C", "R->C", "R->R"][branch])
+        names = ["C->C", "R->C", "R->R", "C->R"]
+        ctx.case({"tag": "linadj", "branch": names[branch], "n": n, "m": m}, ("linadj", branch, n, m))
+        ctx.count("linadj:" + names[branch])
         _cmp_vec(ctx, "linadj", {"branch": branch, "M": G.enc(M), "y": G.enc(yv)}, impl, np.asarray(got, dtype=np.complex128), linadj_oracle)
+
+
+def linadj2_oracle(case):
+    """two primals: <adj(y), (p, q)> = <y, M1 p + M2 q> on the declared argument types"""
+    import jax.numpy as jnp
+    import scico
+    import scico.numpy as snp
+
+    common.setup_scico()
+    kinds = case["kinds"]
+    M1, M2, yv = G.dec(case["M1"]), G.dec(case["M2"]), G.dec(case["y"])
+    m = yv.size
+    M1, M2 = M1.reshape(m, -1), M2.reshape(m, -1)
+    cdt = lambda c: np.complex128 if c else np.float64  # noqa: E731
+    co = case["cout"]
+    realout = bool(case.get("realout"))
+    cm = co or realout
+    J1, J2 = jnp.asarray(M1 if cm else M1.real, dtype=cdt(cm)), jnp.asarray(M2 if cm else M2.real, dtype=cdt(cm))
+    rr = np.random.Generator(np.random.PCG64(5))
+    p = snp.array(np.asarray(G.dy(rr, (M1.shape[1],), kinds[0]), dtype=cdt(kinds[0])))
+    q = snp.array(np.asarray(G.dy(rr, (M2.shape[1],), kinds[1]), dtype=cdt(kinds[1])))
+    Y = snp.array(np.asarray(yv if co else yv.real, dtype=cdt(co)))
+    fun = (lambda a, b: jnp.real(J1 @ a + J2 @ b)) if realout else (lambda a, b: J1 @ a + J2 @ b)
+    ap, aq = scico.linear_adjoint(fun, p, q)(Y)
+    lhs = float(np.real(np.sum(np.conj(np.asarray(ap)) * np.asarray(p)) + np.sum(np.conj(np.asarray(aq)) * np.asarray(q))))
+    rhs = float(np.real(np.sum(np.conj(np.asarray(Y)) * np.asarray(fun(p, q)))))
+    if abs(lhs - rhs) > 1e-9 * (1 + abs(rhs)):
+        return {"primal_kinds": ["complex" if c else "real" for c in kinds], "y": case["y"], "Re<adj y,(p,q)>": lhs, "Re<y,f(p,q)>": rhs}
+    return None
+
+
+def stream_linadj2(ctx, model):
+    """scico.linear_adjoint with two primals whose dtypes differ in kind: the `any(iscomplexobj(primals))`
+    branch.  fun(p, q) = M1 p + M2 q; the adjoint is (M1^H y, M2^H y), real part for a real primal."""
+    import jax.numpy as jnp
+    import scico
+    import scico.numpy as snp
+
+    rng = ctx.rng
+    cdt = lambda c: np.complex128 if c else np.float64  # noqa: E731
+    # every configuration (dtype kind of each primal) x (output: real / complex / real part of a complex map)
+    configs = [([False, False], "R"), ([False, False], "C")]
+    for kk in ([False, True], [True, False], [True, True]):
+        configs += [(kk, "C"), (kk, "Re")]
+    for kinds, out in configs * ctx.n(2, 10):
+        kinds = list(kinds)
+        # real output from complex primals: fun(p, q) = Re(M1 p + M2 q) (real-linear only)
+        realout = out == "Re"
+        co = out == "C"
+        cm = co or realout
+        n1, n2, m = int(rng.integers(1, 4)), int(rng.integers(1, 4)), int(rng.integers(1, 4))
+        M1, M2 = G.dy(rng, (m, n1), cm), G.dy(rng, (m, n2), cm)
+        J1, J2 = jnp.asarray(M1, dtype=cdt(cm)), jnp.asarray(M2, dtype=cdt(cm))
+        p = snp.array(np.asarray(G.dy(rng, (n1,), kinds[0]), dtype=cdt(kinds[0])))
+        q = snp.array(np.asarray(G.dy(rng, (n2,), kinds[1]), dtype=cdt(kinds[1])))
+        yv = G.dy(rng, (m,), co)
+        fun = (lambda a, b: jnp.real(J1 @ a + J2 @ b)) if realout else (lambda a, b: J1 @ a + J2 @ b)
+        adj = scico.linear_adjoint(fun, p, q)
+        ap, aq = adj(snp.array(np.asarray(yv, dtype=cdt(co))))
+        cp = any(kinds)
+        case = {"kinds": kinds, "cout": co, "realout": realout, "M1": G.enc(M1), "M2": G.enc(M2), "y": G.enc(yv)}
+        ctx.case({"tag": "linadj2", "kinds": kinds, "cout": co}, ("linadj2", tuple(kinds), co, n1, n2, m))
+        ctx.count(f"linadj2:primals={'C' if kinds[0] else 'R'}{'C' if kinds[1] else 'R'}:out={'C' if co else ('Re' if realout else 'R')}")
+        for name, impl, Mx, nx, kx in (("linadj2.first", ap, M1, n1, kinds[0]), ("linadj2.second", aq, M2, n2, kinds[1])):
+            got = G.from_cv(model.call("linadj", n=nx, m=m, M=G.cmat(Mx), y=G.cv(yv), cprimal=cp, cout=co, real_out=realout))
+            if not kx:
+                got = got.real  # real primal: JAX returns a cotangent of the primal's dtype
+            if np.asarray(impl).dtype != cdt(kx):
+                ctx.disagree(name + ".dtype", case, str(np.asarray(impl).dtype), str(np.dtype(cdt(kx))), oracle=linadj2_oracle)
+                continue
+            _cmp_vec(ctx, name, case, impl, np.asarray(got, dtype=np.complex128), linadj2_oracle)
 
 
 # --------------------------------------------------------------------------------------------
@@ -1490,11 +1677,12 @@ def correspond(ctx, model):
 
     common.setup_scico()
     warnings.filterwarnings("ignore", message="Casting complex values to real")
-    for stream in (run_corpus, stream_boundary, stream_l21, stream_tv, stream_fn, stream_blocks, stream_single, stream_real_arg,
-                   stream_div_reject, stream_jac, stream_jac_mixed, stream_function, stream_hess, stream_heap, stream_autograd_api):
+    for stream in (run_corpus, stream_boundary, stream_l21, stream_tv, stream_setdist, stream_fn, stream_blocks, stream_single, stream_real_arg,
+                   stream_div_reject, stream_jac, stream_jac_mixed, stream_function, stream_hess, stream_heap, stream_autograd_api, stream_linadj2):
         _guard(ctx, model, stream)
 
 
+SETDIST = "set-distance-grad-nan"
 HUBER0 = "huber-nonsep-grad-at-zero"
 ISOTV = "isotv-noncircular-grad-nan"
 JACMIX = "jacobian-include-eval-mixed-dtype"
@@ -1589,6 +1777,27 @@ def findings(ctx, model):
                 "x": np.asarray(X).tolist(), "nan_entries": badn}}, True, "IsotropicTVNorm(circular=False).grad has NaN")
     else:
         ctx.known_finding(ISOTV, False)
+    # SquaredSetDistance is C^1 everywhere (gradient x - P(x), zero on the set); SetDistance is identically zero
+    # near interior points of the set: NaN there is a defect (both differentiate through norm(0))
+    Pbox = lambda v: snp.clip(v, 0.0, 1.0)  # noqa: E731
+    xin = snp.array(np.array([0.25, 0.5, 0.75]))
+    badd = {}
+    for cls in (functional.SquaredSetDistance, functional.SetDistance):
+        fd_ = cls(Pbox)
+        gd = fd_.grad(xin)
+        if np.any(np.isnan(np.asarray(gd))):
+            bb = nan_grad_but_differentiable(fd_, xin, gd, (3,))
+            if bb:
+                badd[cls.__name__] = bb
+    if badd:
+        if ctx.is_known(SETDIST):
+            ctx.known_finding(SETDIST, True, "NaN gradient inside the set: " + ",".join(sorted(badd)))
+        else:
+            ctx.violation({"kind": "failing-input", "op": "search.nan-gradient", "failing": {
+                "functional": "SquaredSetDistance / SetDistance (proj = clip to [0,1])", "x": [0.25, 0.5, 0.75],
+                "nan_entries": badd}}, True, "set distance gradient is NaN at points of the set")
+    else:
+        ctx.known_finding(SETDIST, False)
 
 
 def _search_fd(ctx, budget):
@@ -1620,10 +1829,14 @@ def _search_fd(ctx, budget):
                 f, name = functional.SetDistance(lambda v: snp.clip(v.real, 0.0, 0.5) + 0j * v if cplx else snp.clip(v, 0.0, 0.5)), "SetDistance"
                 if cplx:
                     continue
+                if rng.random() < 0.3:
+                    X = 0.25 + 0.125 * np.real(X) / 2.5  # a point in the interior of the set
             elif which == 3:
                 if cplx:
                     continue
                 f, name = functional.SquaredSetDistance(lambda v: snp.clip(v, 0.0, 0.5)), "SquaredSetDistance"
+                if rng.random() < 0.4:
+                    X = 0.25 + 0.125 * np.real(X) / 2.5  # a point of the set (the squared distance is C^1 there)
             elif which == 4:
                 f, name = functional.AnisotropicTVNorm(input_shape=shape, input_dtype=dt), "AnisotropicTVNorm"
             elif which == 5:
@@ -1672,9 +1885,10 @@ def _search_fd(ctx, budget):
         ctx.count(f"search:{name}")
         if np.any(np.isnan(g)):
             badn = nan_grad_but_differentiable(f, Xs, g, shape)
-            if badn and not (name == "IsotropicTVNorm" and ctx.is_known(ISOTV)):
+            known_nan = (name == "IsotropicTVNorm" and ctx.is_known(ISOTV)) or (name in ("SetDistance", "SquaredSetDistance") and ctx.is_known(SETDIST))
+            if badn and not known_nan:
                 return {"functional": name, "shape": list(shape), "cplx": cplx, "x": G.enc(X), "grad_is_nan_at": badn}
-            ctx.count("search:nan-gradient:" + ("known-" + ISOTV if badn else "at-a-kink"))
+            ctx.count("search:nan-gradient:" + ("known" if badn else "at-a-kink"))
             continue
         for _ in range(3):
             d = G.dy(rng, shape, cplx, bits=3, scale=1.0)
@@ -1707,6 +1921,10 @@ def replay(ctx, model, case):
         r = fn_oracle(ctx.seed)(c)
     elif op.startswith("api.jacrev"):
         r = jacrev_oracle(c)
+    elif op.startswith("linadj2"):
+        r = linadj2_oracle(c)
+    elif op.startswith("tv"):
+        r = tv_oracle(c)
     elif op.startswith("linadj"):
         r = linadj_oracle(c)
     elif op.startswith("jac"):
